@@ -635,6 +635,9 @@ func (gen *Generator) GenerateCallBySymbol(sym *SexpSymbol, args []Sexp, orig Se
 	case "macexpand":
 		return gen.GenerateMacexpand(args)
 	case "syntaxQuote":
+		if len(args) == 1 && isUnquoteSplicing(args[0]) {
+			return fmt.Errorf("unquote-splicing must be inside a list, array or hash")
+		}
 		return gen.GenerateSyntaxQuote(args)
 	case "include":
 		return gen.GenerateInclude(args)
@@ -1183,6 +1186,17 @@ func isQuotedSymbol(list *SexpPair) (unquotedSymbol Sexp, isQuo bool) {
 		}
 	}
 	return SexpNull, false
+}
+
+// isUnquoteSplicing reports whether expr is the form (unquote-splicing x).
+func isUnquoteSplicing(expr Sexp) bool {
+	pair, ok := expr.(*SexpPair)
+	if !ok || !IsList(expr) {
+		return false
+	}
+	body, _ := ListToArray(expr)
+	sym, ok := pair.Head.(*SexpSymbol)
+	return ok && len(body) == 2 && sym.name == "unquote-splicing"
 }
 
 // side-effect (or main effect) has to be pushing an expression on the top of
